@@ -38,6 +38,22 @@ CHECKS = {
         level_note="Go's bytes.Compare is taken to be Lean's lexicographic List order; float-score order is oracle-only; engine iteration honouring the ranges is C20's subject.",
         technique="Lean 4 proof (injectivity, range exactness, order) over a codec model + byte-for-byte differential run",
     ),
+    'C20': dict(
+        gens=[],
+        props='ZanVerif.Props.C20',
+        protos=[dict(name='engine', quick_seeds=2, thorough_seeds=6)],
+        rule="random sessions of write batches (put / delete / delete-range / counter merge, commit or clear) and reads (get, exist, range iterators with every combination of open/closed bounds, direction, offset incl. negative, count) over adversarial keys "
+             "(shared 3-byte prefixes, suffixes with 0x00 / 0xff, keys that are prefixes of each other; Max slices with spare capacity); every op runs on rocksdb, pebble and the three in-memory structures and on the harness's sorted-map reference with an ideal cursor under the REAL iterator wrapper; "
+             "non-trivial = answered without error; distinct = distinct op lines",
+        trusted=["the engines are black boxes (RocksDB 7.8.3 C++, Pebble, btree/skiplist/radix): for them the claim is differential only (translation-validation level), every engine vs the sorted-map reference",
+                 "rocksdb is only compared on iterator ranges whose Min and Max share the 3-byte prefix (the engine is opened with a 3-byte prefix extractor; ranges across prefixes are undefined for it) and keys are >= 3 bytes (Debian's librocksdb asserts)",
+                 "delete-range is only issued with start <= end (RocksDB rejects the opposite order, the other engines ignore it)"],
+        partial=["engines are compared, not proved; second open write batch on the radix structure (deadlock) is not exercised"],
+        assumptions=["the engine cursor honours the contract Seek = first key >= k, SeekForPrev = last key <= k inside the bounds [Min, Max) / [Min, Max]"],
+        level_text="Theorems, for every sorted store and every option record: the reference store stays sorted/duplicate-free under every batch; a batch is invisible until committed, is the in-order fold when committed and has no effect when cleared; point reads follow last-write-wins; the shared iterator wrapper (engine/iterator.go, both directions, all open/closed combinations, every offset and count) returns exactly take count (drop offset (filter inRange (orient keys))); engine-level bounds are transparent; n counter merges read back as the sum mod 2^64. The wrapper model is tied to the real wrapper code by running the real wrapper over an ideal cursor; each engine is compared with the reference on the same op sequences (differential).",
+        level_note="engines themselves are black boxes (differential only). Findings on the in-memory engine are listed in known_findings.json; the pebble SeekForPrev defect was repaired (fix: commit aca9203).",
+        technique="Lean 4 proof of the reference contract and the iterator wrapper + differential run of 5 engine variants against the reference",
+    ),
 }
 
 # properties not (yet) claimed, with the reason; bin/mkmanifest drops an entry as soon as CHECKS has it
